@@ -234,6 +234,54 @@ def result_class_oracle(chk, rng, n):
     return True
 
 
+def guarded_runaway_oracle(chk):
+    """runaway mutual recursion with handlers INSIDE the loop (a has_value guard, a try/except AttributeError, getattr with a default): the read fails with
+    AttributeError - from every stack depth it is issued at - and remembers nothing; it never 'succeeds' with a value that depends on the free stack"""
+    from typing import Any
+    from pyroll.core import Hook, HookHost
+
+    def build(kind):
+        class H(HookHost):
+            a = Hook[Any]()
+            b = Hook[Any]()
+        if kind == 'has_value':
+            H.a(lambda self: self.b + 1 if self.has_value("b") else 0)
+        elif kind == 'try':
+            def fa(self):
+                try:
+                    return self.b + 1
+                except AttributeError:
+                    return 0
+            H.a(fa)
+        else:
+            H.a(lambda self: getattr(self, "b", -1) + 1)
+        H.b(lambda self: self.a + 1)
+        return H
+
+    def at_depth(n, f):
+        return f() if n == 0 else at_depth(n - 1, f)
+    for kind in ('has_value', 'try', 'getattr-default'):
+        results = []
+        for depth in (0, 7, 40, 123):
+            h = build(kind)()
+            chk.cov['evaluations'] += 1
+
+            def read(h=h):
+                try:
+                    return ('value', h.a)
+                except AttributeError:
+                    return ('AttributeError',)
+                except RecursionError:
+                    return ('RecursionError',)
+            results.append((depth, at_depth(depth, read), dict(h.__cache__)))
+        bad = [r for r in results if r[1] != ('AttributeError',) or r[2]]
+        if bad:
+            return chk.fail('runaway-guarded', f"hook a reads b behind a handler ({kind}), b reads a - a runaway: reading a from stack depths "
+                            f"{[r[0] for r in results]} gives {[r[1] for r in results]} and remembers {[sorted(r[2].items()) for r in results]}; "
+                            f"it must fail with AttributeError and remember nothing", {'handler': kind})
+    return True
+
+
 def run(chk):
     chk.coq.add_prop_file('C07.v')
     chk.coq.compile('C07.v', is_props=True, timeout=900)
@@ -254,7 +302,7 @@ def run(chk):
         shrunk.append((cases[i], small))
         chk.unshown_add(f"correspondence:case{i}", "model and implementation disagree; shrunk history: " + json.dumps(small, default=str)[:1500])
     seen = set()
-    if result_class_oracle(chk, rng, 0):
+    if result_class_oracle(chk, rng, 0) and guarded_runaway_oracle(chk):
         for c in [cases[i] for i in bad] + cases:
             chk.cov['evaluations'] += 1
             seen.add(json.dumps(ser(c), sort_keys=True))
